@@ -47,6 +47,9 @@ def _spell(r: random.Random, s: str) -> str:
 
 
 def gen_cases(tier: str, seed: int):
+    if tier == "thorough":
+        # the repository's own tests as one more workload, under the always-on invariants
+        yield {"kind": "repo_tests"}
     r = random.Random(f"{seed}:C03")
     n, maxsteps = (400, 12) if tier == "quick" else (6000, 25)
     inits = [("db1", "s1"), ("db1", None), (None, None), ("db2", "s2"), ("db2", "s1"), ("DB1", "S2")]
@@ -103,6 +106,8 @@ def setup_worker(env: core.Env) -> None:
 
 
 def run_case(case: dict, env: core.Env) -> None:
+    if case.get("kind") == "repo_tests":
+        return core.run_repo_tests_under_monitors(env, "C03/")
     r = random.Random(case["spell"])
     _FIXED_SPELLING[0] = case["spell"] % 2 == 0
     fs = core.new_fs()
